@@ -366,7 +366,15 @@ def machL1 (e : Endian) (ww rw : Nat) (bitReader strict checks : Bool) (cap : Op
     noOneAhead := fun r => !r.strict && !(r.rest.any id),
     ioChunk := 8,
     stat := fun _ _ => "- -",
-    rcode := fun r code flags p => (readProg e code flags p).map fun prog => prog.run RefR.impl r,
+    -- the reference decodes bit by bit: table options and the default-parameter choices are
+    -- ignored (C05 says they change nothing), so a wrong table entry shows up as a difference
+    rcode := fun r code flags p =>
+      let plain := match code with
+        | "gamma" => "0"
+        | "delta" => "00"
+        | "zeta3" => "0"
+        | _ => flags
+      (readProg e code plain p).map fun prog => prog.run RefR.impl r,
     -- the reference writes the *published* codeword (Dsi.Spec) wherever the implemented writer
     -- program accepts the arguments (its panics delimit the domain)
     wcode := fun w code flags p v =>
@@ -427,12 +435,14 @@ def machCountRef (M : Mach RefW RefR) : Mach (CountW RefW) (CountR RefR) :=
     { writeBits := fun w v n => lift (M.wi.writeBits w.inner v n) w false,
       writeUnary := fun w x => lift (M.wi.writeUnary w.inner x) w false,
       flush := fun w => lift (M.wi.flush w.inner) w true }
+  -- every consuming operation adds the distance the reference cursor travelled; seeks add nothing
+  let adv (r : CountR RefR) (i : RefR) : CountR RefR := { inner := i, bitsRead := r.bitsRead + (i.pos - r.inner.pos) }
   let ri : RImpl (CountR RefR) :=
-    { readBits := fun r n => (M.ri.readBits r.inner n).map fun (v, i) => (v, { r with inner := i }),
-      peekBits := fun r n => (M.ri.peekBits r.inner n).map fun (v, i) => (v, { r with inner := i }),
-      skipAfterPeek := fun r n => { r with inner := M.ri.skipAfterPeek r.inner n },
-      skipBits := fun r n => (M.ri.skipBits r.inner n).map fun i => { r with inner := i },
-      readUnary := fun r => (M.ri.readUnary r.inner).map fun (v, i) => (v, { r with inner := i }) }
+    { readBits := fun r n => (M.ri.readBits r.inner n).map fun (v, i) => (v, adv r i),
+      peekBits := fun r n => (M.ri.peekBits r.inner n).map fun (v, i) => (v, adv r i),
+      skipAfterPeek := fun r n => adv r (M.ri.skipAfterPeek r.inner n),
+      skipBits := fun r n => (M.ri.skipBits r.inner n).map fun i => adv r i,
+      readUnary := fun r => (M.ri.readUnary r.inner).map fun (v, i) => (v, adv r i) }
   { e := M.e, checks := M.checks, wi := wi, ri := ri,
     pos := fun r => M.pos r.inner,
     seek := fun r p => (M.seek r.inner p).map fun i => { r with inner := i },
@@ -440,13 +450,13 @@ def machCountRef (M : Mach RefW RefR) : Mach (CountW RefW) (CountR RefR) :=
     mkReader := fun bytes => { inner := M.mkReader bytes },
     newWriter := { inner := M.newWriter },
     copyTo := fun r w n => (M.copyTo r.inner w.inner n).map fun (ri', wi') =>
-      ({ r with inner := ri' }, { inner := wi', bitsWritten := w.bitsWritten + n }),
+      (adv r ri', { inner := wi', bitsWritten := w.bitsWritten + n }),
     copyFrom := fun w r n => (M.copyFrom w.inner r.inner n).map fun (ri', wi') =>
-      ({ r with inner := ri' }, { inner := wi', bitsWritten := w.bitsWritten + n }),
+      (adv r ri', { inner := wi', bitsWritten := w.bitsWritten + n }),
     noOneAhead := fun r => M.noOneAhead r.inner,
     ioChunk := M.ioChunk,
-    stat := fun w r => s!"bw={w.bitsWritten} br={r.inner.pos}",
-    rcode := fun r code flags p => (M.rcode r.inner code flags p).map fun x => x.map fun (v, i) => (v, { r with inner := i }),
+    stat := fun w r => s!"bw={w.bitsWritten} br={r.bitsRead}",
+    rcode := fun r code flags p => (M.rcode r.inner code flags p).map fun x => x.map fun (v, i) => (v, adv r i),
     wcode := fun w code flags p v => (M.wcode w.inner code flags p v).map fun x => lift x w false }
 
 end Dsi
